@@ -43,7 +43,7 @@ func c08Specs(tier string, seed int) []c08Spec {
 						warm int
 						gw   int
 					}
-					for _, c := range []cg{{"", 0, 99}, {"SW", 30, 99}, {"SW", 60, 2}, {"SM", 60, 99}, {"SM", 45, 4}} {
+					for _, c := range []cg{{"", 0, 99}, {"SW", 30, 99}, {"SW", 60, 2}, {"SM", 60, 99}, {"SM", 45, 4}, {"SW", 50, 1}} {
 						i++
 						if tier == "quick" && c.crop != "" && (i+seed)%2 == 0 {
 							continue // quick: every second crop scenario (rotating with the seed)
@@ -106,9 +106,9 @@ func init() {
 		Assumptions: []string{"ET method 5 reads ET0 from one-file-per-year weather files", "slack 1e-12"},
 		Bound: func(t string) string {
 			if t == "quick" {
-				return "D=2 over 7 symbols; 5 ET methods x 6 latitudes x 4 seasons x 3 moisture levels x bare + half of 4 crop states"
+				return "D=2 over 7 symbols; 5 ET methods x 6 latitudes x 4 seasons x 3 moisture levels x bare + half of 5 crop states (incl. a waterlogged topsoil)"
 			}
-			return "D=3 over 7 symbols; 5 ET methods x 6 latitudes x 4 seasons x 3 moisture levels x 5 cover states"
+			return "D=3 over 7 symbols; 5 ET methods x 6 latitudes x 4 seasons x 3 moisture levels x 6 cover states (incl. a waterlogged topsoil)"
 		},
 		Budget: func(t string) time.Duration {
 			if t == "quick" {
@@ -169,13 +169,16 @@ func (l *c08Probe) probe() *hermes.VerifProbe {
 					l.c.Violate("uptake outside root zone or below groundwater", fmt.Sprintf("%s day %d layer %d: uptake %.6g with rooting depth %d and groundwater at %.3g", l.label, zeit, i+1, g.TP[i], g.WURZ, g.GRW), nil)
 				}
 			}
-			for name, v := range map[string]float64{"TRREL": g.TRREL, "ETREL": g.ETREL} {
+			for name, v := range map[string]float64{"TRREL": g.TRREL, "ETREL": g.ETREL, "LURED": g.LURED} {
 				if !finite(v) || v < -1e-12 || v > 1+1e-12 {
 					l.c.Violate("stress ratio outside [0,1] "+name, fmt.Sprintf("%s day %d: %s = %.10g", l.label, zeit, name, v), nil)
 				}
 			}
 			if tp > 0 {
 				l.c.Count("days_with_transpiration", 1)
+			}
+			if crop && g.LUMDAY >= 4 {
+				l.c.Count("days_after_four_days_of_air_shortage", 1)
 			}
 			if etp >= capv-1e-9 {
 				l.c.Count("days_at_ETp_cap", 1)
